@@ -103,8 +103,12 @@ class DNAS(nn.Module):
             for k, v in list(m._buffers.items()) + list(vars(m).items()):
                 if isinstance(v, torch.Tensor) and not isinstance(v, nn.Parameter):
                     tensors.append((m, k, v))
+        cuda = [self._device] if self._device.type == 'cuda' else []
         try:
-            yield
+            # new layers are created with random initial weights before the trained ones are
+            # copied in: keep the global random stream untouched
+            with torch.random.fork_rng(devices=cuda):
+                yield
         finally:
             for m, mode in modes:
                 m.training = mode
